@@ -59,6 +59,53 @@ def wire_shape(kind, shape):
     return (3 * k + 2, la.offset, len(la), offs, vals)
 
 
+def wire_from_coords(kind, coords):
+    """the same wire tuple rebuilt from the PUBLIC nested coordinate lists as a fresh
+    zero-offset buffer (what pa.array([coords])[0] holds; library-built scalars are
+    zero-offset).  Used as the model's input; the shape's own buffers (wire_shape) are an
+    optional internal extra."""
+    if kind == 'point':
+        return (0, 0, 2, [], [int(coords[0]), int(coords[1])])
+    k = KIND_CODE[kind]
+    if kind in ('multipoint', 'line'):
+        return (3 * k + 1, 0, len(coords), [], [int(c) for c in coords])
+    if kind in ('multiline', 'polygon'):
+        o, vals = [0], []
+        for part in coords:
+            vals.extend(int(c) for c in part)
+            o.append(len(vals))
+        return (3 * k + 2, 0, len(coords), [o], vals)
+    o0, o1, vals = [0], [0], []
+    for part in coords:
+        for ring in part:
+            vals.extend(int(c) for c in ring)
+            o1.append(len(vals))
+        o0.append(len(o1) - 1)
+    return (3 * k + 2, 0, len(coords), [o0, o1], vals)
+
+
+def export_points(arr, pts):
+    """Build_fixarr of a public PointArray from buffers() of its __arrow_array__();
+    (record, 'arrow') or, when that is unavailable, a zero-offset rebuild from the known
+    slots (record, 'rebuilt') -- equivalent for the model by C02_forms_agree /
+    C02_missing_false (any offset, any placeholder bytes in missing slots)."""
+    try:
+        data = arr.__arrow_array__()
+        bufs = data.buffers()
+        off, n = data.offset, len(data)
+        dt = np.dtype(arr.dtype.subtype)
+        valid = C._bits(bufs[0], off + n)
+        vals = _ints(bufs[1], dt)[:2 * (off + n)] if n else []
+        assert n == len(pts) and (n == 0 or len(vals) == 2 * (off + n))
+        return Rec('Build_fixarr', Nat(off), Nat(n), None if valid is None else Some(valid),
+                   [Some(v) for v in vals]), 'arrow'
+    except Exception:  # noqa: BLE001
+        valid = [p is not None for p in pts]
+        vals = [c for p in pts for c in (p if p is not None else (0, 0))]
+        return Rec('Build_fixarr', Nat(0), Nat(len(pts)), None if all(valid) else Some(valid),
+                   [Some(int(v)) for v in vals]), 'rebuilt'
+
+
 def zlist(l):
     return '[' + '; '.join(zlist(x) if isinstance(x, list) else str(int(x)) for x in l) + ']'
 
